@@ -1,26 +1,26 @@
-"""Extra module Paging: the request protocols of Rally's stateful search runners (runner.Query: request-body search, scroll search,
-search_after pagination; OpenPointInTime / ClosePointInTime / CompositeContext), specs/Paging.
-Specified: a fake Elasticsearch (index with N hits, capped total-hits tracking, scroll contexts and points in time that are open or
-closed, one scripted failing request, rotating ids) and the runner as the sequence of wire requests it sends and the meta data it
-returns over several iterations that share ONE params object.  Invariants (TLC + L1 on every recorded run): the pages of a call are
-contiguous, every hit at most once and in order (InOrderOnce); never more pages than `pages` (PagesWithinLimit); a call that was not
-stopped by the limit saw everything (Complete); scroll: 1 page if total < size, else pages up to AND INCLUDING the first empty one;
-the scroll context is always cleared, also when a request raised, and never used afterwards (ScrollCleared, NoUseAfterClear); the
-pit id sent is the one most recently returned (LatestPitId); search_after(i+1) = sort of the last hit of response i
-(SearchAfterChain); weight = pages = pages served, hits / relation of the first response, timed_out = OR, took = SUM (MetaFaithful);
-nothing but clear_scroll is sent after an error, errors surface (NothingAfterError, NoSuccessOnFailure); a pit is closed iff its
-segment succeeded and never used after close (PitClosedOnSuccess, NoSearchOnClosedPit); RequestShape.
-Deviations of /repo (model switches FALSE = code, reported as L1): ResetBody - a paginated-search that stops at the `pages` limit or
-raises leaves `search_after` in the shared body, the next iteration starts behind the last hit and finally sends search_after:null
-(StartsAtFirstHit, NoRequestAfterEmptyPage); RefreshScrollId - scroll requests and clear_scroll always use the FIRST _scroll_id
-(LatestScrollId); DefaultPageSize - paginated-search without results-per-page raises TypeError (ErrOnlyIfRequestFailed).
+"""Extra module Paging: request protocols of Rally's stateful search runners (runner.Query: search, scroll-search, paginated-search
+with search_after; OpenPointInTime / ClosePointInTime / CompositeContext), specs/Paging.  A fake Elasticsearch (N hits, capped total,
+scroll contexts / points in time open or closed, one scripted failing request, rotating ids) and the runner as the sequence of wire
+requests and returned meta data over iterations that share ONE params object.  Invariants (TLC + L1 on every recorded run): pages of a
+call are contiguous, each hit at most once and in order (InOrderOnce); <= `pages` pages, a call not stopped by the limit saw everything,
+exact page count: paginated = min(pages, max(1, ceil(total/size))), scroll = 1 if total < size else up to AND INCLUDING the first empty
+page (PagesWithinLimit, Complete, PageCount); the scroll is always cleared, also after a raising request, never used afterwards
+(ScrollCleared, NoUseAfterClear); pit id sent = most recently returned (LatestPitId); search_after(i+1) = sort of last hit of response i
+(SearchAfterChain); weight = pages = pages served, hits/relation of the first response, timed_out = OR, took = SUM (MetaFaithful); only
+clear_scroll follows an error, errors surface (NothingAfterError, NoSuccessOnFailure); a pit is closed iff its segment succeeded
+(PitClosedOnSuccess, NoSearchOnClosedPit); RequestShape.  Deviations of /repo (switch FALSE = code, reported as pinned L1):
+ResetBody - paginated-search that stops at the `pages` limit or raises leaves search_after in the shared body: the next iteration
+starts behind the last hit and finally sends search_after:null (StartsAtFirstHit, NoRequestAfterEmptyPage); RefreshScrollId - scroll
+and clear_scroll always use the FIRST _scroll_id (LatestScrollId); DefaultPageSize - paginated-search without results-per-page raises
+TypeError instead of using 10 (ErrOnlyIfRequestFailed).
 
 Leg M   : TLC on Paging.quick/thorough.cfg (code as it is), Paging.intended.cfg (all switches TRUE: ALL invariants hold), 4 pinned
           self-tests (one switch FALSE -> the named invariant is violated in the model).
 Leg S2C : TLC -simulate behaviours (scenario chosen stepwise from wide alphabets) and an exhaustive table (TLC -dump of SpecTable:
           scenario -> wire + returned meta data) are executed on the REAL registered runners against a scripted fake async client.
-Leg C2S : every recorded run (S2C ones, seeded random bigger ones, and runs through the real runner.Composite) is validated by TLC
-          against TracePaging.tla: L1 = all invariants on the recorded state, L2 = request / response / meta data are the model's.
+Leg C2S : every recorded run (S2C ones and seeded random bigger ones) is validated by TLC against TracePaging.tla: L1 = all invariants
+          on the recorded state, L2 = request / response / returned meta data are the model's; a sample is also run through the real
+          runner.Composite and compared request by request.
 """
 import asyncio
 import glob
@@ -659,14 +659,14 @@ def run_cases(cases, out, label, stats, with_composite=0):
             stats["composite_agrees"] += 1
         else:
             out.drift.append("%s: runner.Composite and the direct calls of its sub-operations differ for scenario %s" % (label, scn))
-    verdicts = tracecheck.validate("Paging", "TracePaging", "TracePaging.cfg", items, name="xpagtrace", chunk=1500, skip_field="skip")
+    verdicts = tracecheck.validate("Paging", "TracePaging", "TracePaging.cfg", items, name="xpagtrace", chunk=3000, skip_field="skip")
     out.states += verdicts.n_events
     out.transitions += verdicts.n_events
     out.traces_validated += verdicts.accepted(len(items))
     for tid, fails in sorted(verdicts.l1.items()):
         case, item = index[tid]
         clauses = sorted({c for _, cl in fails for c in cl})
-        key = ",".join(clauses)
+        key = ",".join(c + ("(pinned)" if c in PINNED else "") for c in clauses)
         stats["l1"][key] = stats["l1"].get(key, 0) + 1
         if key in stats["l1_reported"]:
             continue
@@ -753,15 +753,15 @@ def run(ctx, out):
         ).split()
     }
     stats.update(l1={}, l1_reported=set(), anomalies={}, internal_errors={})
-    sim = behaviours_from_tlc(ctx, out, 400 if ctx.quick else 4000, 120)
+    sim = behaviours_from_tlc(ctx, out, 300 if ctx.quick else 4000, 120)
     out.note("leg S2C: %d TLC -simulate behaviours" % len(sim))
     items = run_cases(sim, out, "sim", stats, with_composite=60 if ctx.quick else 600)
     out.sample({"source": "tlc-simulate", "scenario": sim[0]["scn"], "recorded_events": items[0]["events"][:6]})
     table = table_from_tlc(ctx, out, *(("MC_Paging", "Paging.table.cfg") if ctx.quick else ("MC_PagingL", "Paging.tablebig.cfg")))
     out.note("leg S2C: table of %d scenarios" % len(table))
-    n_before = stats["s2c_followed"], stats["s2c"]
-    items = run_cases(table, out, "tab", stats, with_composite=150 if ctx.quick else 1500)
-    out.extra["table"] = {"scenarios": len(table), "real_code_equals_table": stats["s2c_followed"] - n_before[0]}
+    followed_before = stats["s2c_followed"]
+    run_cases(table, out, "tab", stats, with_composite=150 if ctx.quick else 1500)
+    out.extra["table"] = {"scenarios": len(table), "real_code_equals_table": stats["s2c_followed"] - followed_before}
     out.exhaustive = False
     rnd = random.Random(ctx.seed + 43)
     rc = [{"src": "random", "scn": random_scenario(rnd)} for _ in range(600 if ctx.quick else 8000)]
@@ -793,6 +793,9 @@ def run(ctx, out):
     )
     if stats["l1"]:
         out.note("L1 verdicts by clause set: %s" % json.dumps(stats["l1"], sort_keys=True))
+    if stats["l2"] and out.violations:
+        # the runner's status line shows either L1 or drift; /repo always has the pinned L1 deviations, so drift would be masked
+        out.violations.append(Violation("~L2-DRIFT(%d runs are not behaviours of Paging.tla, see drift)" % stats["l2"], {}, signature={"drift": True}, detail=out.drift[0] if out.drift else ""))
     if stats["anomalies"]:
         out.drift.append("requests with an unexpected shape: %s" % json.dumps(stats["anomalies"], sort_keys=True)[:600])
     unexpected_internal = {k: v for k, v in stats["internal_errors"].items() if not k.startswith("TypeError: unsupported operand")}
